@@ -357,7 +357,7 @@ Definition tx_transformed : ptexture :=
 Definition mat_with (ptr : N) (t : ptexture) : pmaterial :=
   {| pm_ptr := ptr; pm_name := "x";
      pm_pbr := Some {| pb_color := None; pb_tex := Some t; pb_metal := None; pb_rough := None; pb_mrtex := None |};
-     pm_exts := []; pm_normal := None; pm_occ := None; pm_emissive := None; pm_alpha := None; pm_cutoff := None |}.
+     pm_exts := []; pm_normal := None; pm_occ := None; pm_emissive := None; pm_alpha := None; pm_cutoff := None; pm_extras := 0 |}.
 Definition tex_ext_scene : scene :=
   {| sc_models := [ {| mo_name := "a"; mo_mesh := tri_mesh 0; mo_mat := Some (mat_with 0 tx_transformed);
                        mo_t := None; mo_r := None; mo_s := None; mo_inst := [] |};
